@@ -112,7 +112,7 @@ func Scenarios() []History {
 		{Name: "UpdateBinding", Signer: "o1", Svc: "s1", Prov: "p1", HasPr: true, Pr: pr(1)},
 		{Name: "UpdateBinding", Signer: "o1", Svc: "s1", Prov: "p1", Qos: 3},
 		{Name: "Bind", Signer: "o1", Svc: "s1", Prov: "p2", Deposit: 12, DShape: "ok", Pr: pr(0), Qos: 1},
-		{Name: "UpdateBinding", Signer: "o1", Svc: "s1", Prov: "p2", HasPr: true, Pr: pr(100)}, // a raise from a price of 0
+		{Name: "UpdateBinding", Signer: "o1", Svc: "s1", Prov: "p2", HasPr: true, Pr: pr(100)},               // a raise from a price of 0
 		{Name: "Bind", Signer: "o1", Svc: "s1", Prov: "p3", Deposit: 150, DShape: "ok", Pr: pr(100), Qos: 1}, // above the global minimum only
 	}
 	add("D3-price-increase", smallParams(), nil, ops...)
@@ -194,7 +194,6 @@ func Scenarios() []History {
 		eb(1), eb(1), eb(1),
 	)
 	add("cadence", smallParams(), nil, ops...)
-
 
 	// ---- boundary scenarios named by the properties' quantifiers
 
@@ -509,5 +508,6 @@ func Scenarios() []History {
 		RBal: map[string]int64{"o1": 500, "c1": 100}}, Ops: ops})
 
 	hs = append(hs, Scenarios2()...)
+	hs = append(hs, ParamScenarios()...)
 	return hs
 }
